@@ -29,8 +29,11 @@ for d in sorted(glob.glob("/verif/seeded/*/")):
     props = built if allprops else [p for p in [meta.get("property")] if p in built]
     for p in props:
         jobs.append((p, "/repo", vid, d + "patch.diff", meta.get("kind", "mutation")))
-with ProcessPoolExecutor(max_workers=16) as ex:
-    results = list(ex.map(selftest._run_variant, jobs))
+# workers are recycled: a worker that has analysed a few hundred trees holds their models in the analyser's caches
+results = []
+for i0 in range(0, len(jobs), 800):
+    with ProcessPoolExecutor(max_workers=16) as ex:
+        results.extend(ex.map(selftest._run_variant, jobs[i0:i0 + 800]))
 by = {}
 for (p, _r, vid, _pp, kind), (vid2, k2, outcome, detail) in zip(jobs, results):
     by.setdefault(vid, []).append((p, outcome, detail))
